@@ -97,7 +97,7 @@ def complex_voltage_source(id: str, nodes: tuple[str, str], V: complex, Z: compl
 def periodic_voltage_source(id: str, nodes: tuple[str, str], wavetype: str, V: float, w: float, phi: float = 0, R: float = 0) ->Component:
     if R < 0:
         raise ValueError('R must be greater than zero.')
-    if w < 0:
+    if w <= 0:
         raise ValueError('w must be greater than zero.')
     periodic_function(wavetype)
     return Component(
@@ -144,7 +144,7 @@ def complex_current_source(id: str, nodes: tuple[str, str], I: complex, Y: compl
 def periodic_current_source(id: str, nodes: tuple[str, str], wavetype: str, I: float, w: float, phi: float, G: float = 0) -> Component:
     if G < 0:
         raise ValueError('G must be greater than zero.')
-    if w < 0:
+    if w <= 0:
         raise ValueError('w must be greater than zero.')
     periodic_function(wavetype)
     return Component(
